@@ -28,6 +28,7 @@ REGISTRY = {
     "C10": ("auverif.props.c10", "run"),
     "C09": ("auverif.props.c09", "run"),
     "C11": ("auverif.props.c11", "run"),
+    "C19": ("auverif.props.c19", "run"),
 }
 
 
